@@ -161,7 +161,7 @@ class Revision:
     def __init__(self, objects, form="table", objstm=(), free=(), eol=b"\n", root=None, info=None,
                  trailer_extra=None, gens=None, xref_w=(1, 4, 2), split_index=False, objstm_id=None, xref_id=None,
                  pad_before=b"", omit_index=False, trailer_style=0, xref_pack="flate", objstm_pack="flate",
-                 hybrid_free=False, drop_info=False, index_desc=False):
+                 hybrid_free=False, drop_info=False, index_desc=False, omit_self=False):
         self.objects = dict(objects)          # objid -> value
         self.form = form                      # 'table' | 'stream' | 'hybrid'
         self.objstm = list(objstm)            # objids stored in this revision's object stream (not for 'table')
@@ -180,6 +180,8 @@ class Revision:
         self.xref_pack = xref_pack            # xref stream payload: 'flate' | 'png' (Flate + /Predictor 12, as most writers do) | 'none'
         self.objstm_pack = objstm_pack        # object stream payload: 'flate' | 'none' | 'hex' (ASCIIHex)
         self.index_desc = index_desc          # xref stream with several /Index subsections: written in descending order
+        self.omit_self = omit_self            # xref stream without an entry for itself (readers find it through startxref); with nothing
+                                              # else to list the section is `/Index []` with no entry data: an update that defines nothing
         self.drop_info = drop_info            # this revision's trailer carries no /Info although an older one does
         self.hybrid_free = hybrid_free        # hybrid: the classic table lists the objects kept in object streams as FREE entries
                                               # (ISO 32000-1 7.5.8.4: hidden from readers that do not know XRefStm)
@@ -266,11 +268,14 @@ def build(revisions, header=b"%PDF-1.7\n%\xe2\xe3\xcf\xd3\n", transform_for=None
             w = rev.xref_w
             pos = len(out)
             ent = {k: entries[k] for k in ids}
-            ent[xid] = (1, pos, 0)
+            if not rev.omit_self:
+                ent[xid] = (1, pos, 0)
             if 0 not in ent and prev is None and rev.form == "stream":
                 ent[0] = (0, 0, 65535)
             keys = sorted(ent)
-            if rev.split_index:
+            if not keys:
+                runs = []
+            elif rev.split_index:
                 runs = _runs(keys)
                 if rev.index_desc and len(runs) > 1:
                     # /Index subsections need not ascend: entries follow the order of the pairs
@@ -336,6 +341,8 @@ def build(revisions, header=b"%PDF-1.7\n%\xe2\xe3\xcf\xd3\n", transform_for=None
             if prev is None:
                 tab.setdefault(0, (0, 0, 65535))
             out += b"xref" + E
+            if not tab:
+                out += b"0 0" + E          # a section without entries (an update that changes the trailer only)
             for start, cnt in _runs(tab):
                 out += b"%d %d" % (start, cnt) + E
                 for k in range(start, start + cnt):
